@@ -84,6 +84,37 @@ MODEL_FAULTS = [
 ]
 
 
+IMPORTED_CHILD = {
+    'main.cellml': '<?xml version="1.0" encoding="UTF-8"?>\n<model xmlns="http://www.cellml.org/cellml/2.0#" xmlns:xlink="http://www.w3.org/1999/xlink" name="main"><import xlink:href="source.cellml"><component name="mine" component_ref="parent"/></import></model>\n',
+    'source.cellml': '<?xml version="1.0" encoding="UTF-8"?>\n<model xmlns="http://www.cellml.org/cellml/2.0#" name="source"><component name="parent"><variable name="p" units="second"/></component>'
+                     '<component name="child"><variable name="q" units="second" initial_value="abc"/></component><encapsulation><component_ref component="parent"><component_ref component="child"/></component_ref></encapsulation></model>\n'}
+
+
+def imported_child_probe(chk, lib, kf, stats):
+    """the input of known finding C04-imported-children-not-validated, always replayed: an imported component whose encapsulated
+    child (in the imported model) has an invalid initial value; imports resolved, then validated.  Returns a complaint or None."""
+    hx = build_hx('hx_import', lib)
+    wd = tempfile.mkdtemp(prefix='c04i-')
+    try:
+        for n, t in IMPORTED_CHILD.items():
+            open(os.path.join(wd, n), 'w').write(t)
+        r = subprocess.run([hx], input='\n'.join(['importer strict', 'parse %s/main.cellml' % wd, 'resolve %s/' % wd, 'validate origin', 'flatten', 'validate flat']) + '\n', capture_output=True, text=True, timeout=60)
+        o = r.stdout.split('\n')
+        if r.returncode != 0 or len(o) < 6:
+            return 'the library crashed while validating a model with a resolved import'
+        nerr = lambda line: len(re.findall(r'\[0 R', line))
+        stats['imported_child_probe'] = {'resolved': o[2].split()[1], 'errors_origin': nerr(o[3]), 'errors_flattened': nerr(o[5])}
+        if o[2].split()[1] != '1' or nerr(o[3]) > 0:
+            return None
+        if 'C04-imported-children-not-validated' in kf:
+            chk.known_finding(kf['C04-imported-children-not-validated']['what'])
+            return None
+        return ('a model imports component "parent" whose encapsulated child has initial_value="abc": after resolveImports the validator reports no error for the importing model '
+                '(the flattened model: %d errors)' % nerr(o[5]))
+    finally:
+        shutil.rmtree(wd, ignore_errors=True)
+
+
 def sec(o, a, b):
     return o[o.index('=====' + a) + len(a) + 6:o.index('=====' + b)]
 
@@ -366,6 +397,10 @@ def run(chk, replay=None):
                    rule='valid-by-construction documents (pygen/docs.py without special characters) must be accepted; %d kinds of single-rule violations injected as additional elements at a random applicable location (top-level / encapsulated component, first / last child, model level) must raise an error citing the rule; '
                         'component-name and id multisets against the uniqueness model' % len(COMPONENT_FAULTS + MODEL_FAULTS),
                    samples=[lines[0] if lines else '', expect[0] if expect else '', model[0] if model else ''], traces_validated_against_impl=len(lines) - len(corr), exhaustive=False, outcome_histogram=stats)
+    if not replay:
+        ic = imported_child_probe(chk, lib, kf, stats)
+        if ic:
+            chk.violation('the validator does not decide validity correctly: ' + ic, {'kind': 'oracle', 'engine': 'files', 'files': IMPORTED_CHILD, 'why': ic}, True)
     for o in oracle[:3]:
         chk.violation('the validator does not decide validity correctly: ' + o[0], {'kind': 'oracle', 'engine': 'valid', 'cellml': o[1], 'fault': o[2], 'expect_rules': o[3] if len(o) > 3 else None, 'why': o[0]}, True)
     if not oracle:
